@@ -1,10 +1,157 @@
+/-
+  C09 — An EDS fetched over shrex matches the header's DAH.   PROPERTY THEOREMS ONLY.
+
+  Model: `Lumina/Model/ShrexEds.lean` (`decodeAndVerify`, `encode` = the shrex `ResponseCodec` of
+  `ExtendedDataSquare`), over `Lumina/Model/EdsCode.lean` (`ExtendedDataSquare::new` / `from_ods`) and group D's
+  `Eds`/`Nmt` models.  Spec: `Lumina/Spec/C09.lean`, which does not mention the decoder model.
+
+  Parameters: the hash `H` (no hypothesis for `decode_total`, `decode_sound`, `decode_complete`; collision-freeness
+  `HashOK H` for `accepted_unique`) and the Reed–Solomon encoder `enc`, about which only its SHAPE is assumed
+  (`EncShape`: `k` data shards give `k` parity shards).  No algebraic property of the codec is needed for C09.
+-/
 import Lumina.Gen.C09
-import Lumina.Model.ShrexEds
-import Lumina.Spec.C09
+import Lumina.Proofs.ShrexEds
 
 namespace Lumina.Props.C09
-open Lumina.Model.EdsCode
+open Lumina.Util Lumina.Model.Nmt Lumina.Model.Eds Lumina.Model.EdsCode Lumina.Model.ShrexEds
+open Lumina.Proofs.Nmt Lumina.Proofs.Eds Lumina.Proofs.EdsCode Lumina.Proofs.EdsExtend Lumina.Proofs.ShrexEds
+open Lumina.Spec.C09 (Obs specDecode specHonest)
 
-theorem const_share_size : Lumina.Gen.C09.SHARE_SIZE = 512 ∧ Lumina.Model.Eds.SHARE_SIZE = 512 := by decide
+/-- the constants the property talks about, re-read from /repo on every run -/
+theorem consts_eq :
+    Lumina.Gen.C09.SHARE_SIZE = 512 ∧ Lumina.Gen.C09.SHARE_SIZE = Lumina.Model.Eds.SHARE_SIZE ∧
+    Lumina.Gen.C09.NS_SIZE = 29 ∧ Lumina.Gen.C09.NS_SIZE = Lumina.Model.Nmt.NS_SIZE ∧
+    Lumina.Gen.C09.MIN_SQUARE_SIZE * 2 = MIN_EXTENDED_SQUARE_WIDTH ∧
+    Lumina.Gen.C09.SHARE_VERSION_ONE = SHARE_VERSION_ONE ∧
+    Lumina.Gen.C09.SQUARE_SIZE_UPPER_BOUNDS = (List.range 7).map (fun i => squareSizeUpperBound (i + 1)) := by
+  decide
+
+/-- what the harness / the spec observes of a decode outcome -/
+def obsOf : Except DecErr Eds → Obs
+  | .ok e => .ok e.width (e.shares.map Share.data)
+  | .error .panic => .panic
+  | .error _ => .err
+
+/-- the reference extension of a payload: its 512-byte chunks as a `k × k` square, extended by the codec -/
+def extOf (enc : List Bytes → List Bytes) (raw : Bytes) : List Bytes :=
+  extendRaw enc (isqrt (chunks 512 raw).length) (chunks 512 raw)
+
+/-- **No panic, for every byte string, every DAH, every app version, every codec, every hash.**  The decoder
+    never reaches the `expect("EDS validated on construction")` of `from_eds` nor the `hash_nodes` panic of
+    nmt-rs: what `ExtendedDataSquare::new` validated (namespace order along every row and column) is exactly what
+    the tree construction needs. -/
+theorem decode_total (H : HashFn) (enc : List Bytes → List Bytes) (raw : Bytes) (dah : Dah) (ver : Nat) :
+    decodeAndVerify H enc raw dah ver ≠ .error .panic := by
+  unfold decodeAndVerify
+  split
+  · simp
+  · split
+    · simp
+    · cases hf : fromOds enc ver (chunks SHARE_SIZE raw) with
+      | error er => simp
+      | ok eds =>
+        obtain ⟨_, _, hn⟩ := fromOds_ok hf
+        obtain ⟨d, hd⟩ := hn.dah_total H
+        simp only [hd]
+        split <;> simp
+
+/-- **Soundness (the property's first sentence), for every input.**  Whatever `decode_and_verify` returns satisfies
+    the spec: it does not panic, and if it accepts then the payload is non-empty whole shares forming exactly the
+    first quadrant of the returned square, the returned square is the codec's extension of the payload, and its
+    row and column roots are exactly the header's. -/
+theorem decode_sound (H : HashFn) (enc : List Bytes → List Bytes) (hs : ∀ k, EncShape enc k) (raw : Bytes) (dah : Dah)
+    (ver : Nat) :
+    specDecode H raw dah.rowRoots dah.colRoots (some (extOf enc raw)) (obsOf (decodeAndVerify H enc raw dah ver)) = true := by
+  cases h : decodeAndVerify H enc raw dah ver with
+  | error er =>
+    cases er with
+    | panic => exact (decode_total H enc raw dah ver h).elim
+    | _ => rfl
+  | ok e =>
+    have ok := decode_ok h
+    obtain ⟨hg, hw⟩ := ok.shape hs
+    have hdata := Lumina.Proofs.ShrexEds.NewOK.data ok.newOK
+    have hq := quadrant0_extGrid enc ok.sq.symm
+    have hcm := commits_of_dah ok.newOK H ok.dah
+    have h512 : SHARE_SIZE = 512 := rfl
+    simp only [h512] at *
+    simp only [obsOf, specDecode, extOf, hdata, hw, hg, hq, Bool.and_eq_true, beq_iff_eq, List.all_eq_true,
+      Bool.not_eq_true', and_true]
+    rw [hw, hg] at hcm
+    refine ⟨⟨⟨chunks_flatten (by omega) raw, ?_⟩, ?_⟩, hcm⟩
+    · exact chunks_len (by omega) raw ok.whole
+    · cases hr : raw with
+      | nil => exact (ok.nonempty hr).elim
+      | cons a t => rfl
+
+/-- non-vacuity of the codec hypothesis: a (useless but shape-correct) encoder exists, so `decode_sound` is not
+    vacuous; the real codec's outputs satisfy the shape on every correspondence line -/
+example : ∀ k, EncShape (fun row => row) k := fun _ _ h => h
+
+/-- **The accepted payload is THE square committed by the DAH** (idealised hash).  Whatever codecs, app versions
+    and payloads two accepting runs of the decoder used: if they accepted against the same DAH, they accepted the
+    same payload and returned the same square.  So "any other payload is rejected". -/
+theorem accepted_unique {H : HashFn} (hk : HashOK H) {enc enc' : List Bytes → List Bytes} (hs : ∀ k, EncShape enc k)
+    (hs' : ∀ k, EncShape enc' k) {raw raw' : Bytes} {dah : Dah} {ver ver' : Nat} {e e' : Eds}
+    (h : decodeAndVerify H enc raw dah ver = .ok e) (h' : decodeAndVerify H enc' raw' dah ver' = .ok e') :
+    raw = raw' ∧ e = e' := by
+  have ok := decode_ok h
+  have ok' := decode_ok h'
+  obtain ⟨hX, he⟩ := dah_binds hk ok.newOK ok'.newOK ok.dah ok'.dah
+  refine ⟨?_, he⟩
+  obtain ⟨hg, hw⟩ := ok.shape hs
+  obtain ⟨hg', hw'⟩ := ok'.shape hs'
+  have hq := quadrant0_extGrid enc ok.sq.symm
+  have hq' := quadrant0_extGrid enc' ok'.sq.symm
+  rw [← hg, ← hw] at hq
+  rw [← hg', ← hw', ← hX, ← he] at hq'
+  have hc : chunks SHARE_SIZE raw = chunks SHARE_SIZE raw' := by rw [← hq, ← hq']
+  have h512 : 0 < SHARE_SIZE := by decide
+  rw [← chunks_flatten h512 raw, ← chunks_flatten h512 raw', hc]
+
+/-- **Completeness**: the honest payload — the original data square of a square built by `from_ods`, row-major —
+    checked against that square's own DAH is accepted and the very same square is returned. -/
+theorem decode_complete (H : HashFn) (enc : List Bytes → List Bytes) {ver : Nat} {ods : List Bytes} {e : Eds} {dah : Dah}
+    (hall : ∀ s ∈ ods, s.length = SHARE_SIZE) (hf : fromOds enc ver ods = .ok e) (hd : Dah.ofEds H e = .ok dah) :
+    decodeAndVerify H enc ods.flatten dah ver = .ok e ∧
+    specHonest (obsOf (decodeAndVerify H enc ods.flatten dah ver)) = true := by
+  have h512 : 0 < SHARE_SIZE := by decide
+  have hch : chunks SHARE_SIZE ods.flatten = ods := chunks_of_flatten h512 ods hall
+  obtain ⟨hsq, _, hn⟩ := fromOds_ok hf
+  -- the square is not empty
+  have hne : ods ≠ [] := by
+    intro h0
+    subst h0
+    obtain ⟨k, hk1, _, hk⟩ := hn.pow
+    have hs := hn.sq
+    have h0 : (extendRaw enc (isqrt ([] : List Bytes).length) []).length = 0 := by
+      simp [extendRaw, isqrt, sqrtAux]
+    rw [h0] at hs
+    have : e.width = 0 := by
+      rcases Nat.mul_eq_zero.mp hs with h | h <;> exact h
+    have := Nat.two_pow_pos k
+    omega
+  have hflen : ods.flatten.length = SHARE_SIZE * ods.length := flatten_length_const hall
+  have hnonempty : ods.flatten.isEmpty = false := by
+    cases ods with
+    | nil => exact (hne rfl).elim
+    | cons a t =>
+      have := hall a (by simp)
+      cases a with
+      | nil => simp [SHARE_SIZE] at this
+      | cons x xs => rfl
+  have hmod : ods.flatten.length % SHARE_SIZE = 0 := by rw [hflen]; exact Nat.mul_mod_right _ _
+  have : decodeAndVerify H enc ods.flatten dah ver = .ok e := by
+    unfold decodeAndVerify
+    simp only [hnonempty, Bool.false_eq_true, ↓reduceIte, hmod, ne_eq, not_true_eq_false, hch, hf, hd]
+  exact ⟨this, by rw [this]; rfl⟩
+
+/-- non-vacuity of `decode_complete`/`accepted_unique`'s shape: the model accepts a concrete honest 1 × 1 square
+    (evaluated with a toy hash and the identity "codec"; real squares with the real codec are accepted on every
+    correspondence run) -/
+example :
+    let share : Bytes := List.replicate 29 0 ++ List.replicate 483 7
+    (fromOds (fun row => row) 1 [share]).toOption.isSome = true ∧ (∀ s ∈ [share], s.length = SHARE_SIZE) := by
+  decide +kernel
 
 end Lumina.Props.C09
